@@ -166,3 +166,13 @@ B('pkgL_b_header_without_colon', ['C20'], 'R20.d',
   (FL, "        if tb_lines[0].strip() == 'Traceback (most recent call last):':", "        if tb_lines[0].strip() == 'Traceback (most recent call last)':"))
 B('pkgL_b_message_side_lost', ['C20'], 'R20.d',
   (FL, "            exc_type, sep, exc_msg = line.partition(':')\n", "            exc_type, sep, exc_msg = line.rpartition(':')\n"))
+B('pkgL_b_sort_without_guard', ['C20'], 'R20.b',
+  (FL, "    if monitored_files:\n        monitored_files.sort(key=lambda x: len(x))\n", "    monitored_files.sort(key=lambda x: len(x))\n"))
+B('pkgL_b_text_stripped_outside_try', ['C20'], 'R20.b',
+  (FL, "    non_site_files = _filter_site_files(monitored_files)\n    try:\n", "    non_site_files = _filter_site_files(monitored_files)\n    first_line = traceback_string.strip().split('\\n')[0]\n    try:\n"))
+B('pkgL_b_pages_only_for_get', ['C20'], 'R20.b',
+  (FL, "from .application import Application\n", "from .application import Application\nfrom .route import GET\n"),
+  (FL, "    routes = [('/', get_flaw_info, 'flaw_tmpl'),\n", "    routes = [GET('/', get_flaw_info, 'flaw_tmpl'),\n"))
+T('pkgL_t_sort_guard_spelled_out', ['C20'],
+  (FL, "    if monitored_files:\n        monitored_files.sort(key=lambda x: len(x))\n",
+       "    if monitored_files is not None and len(monitored_files) > 1:\n        monitored_files.sort(key=len)\n"))
